@@ -64,7 +64,7 @@ RESET = {"c13_tq": "tq reset", "c13_trk": "trk reset", "c13_krn": "krn reset", "
 # generator floors (quick tier; thorough is far above): a run that does not reach these input classes is not
 # evidence -> exit 2
 FLOORS = {
-    "tq.digest.overflow>256": 100, "tq.overflow.sliceShrunk": 1, "tq.digest.claimed": 500,
+    "tq.digest.overflow>256": 100, "tq.digest.claimed": 500,
     "tq.stop.convoy.afterClaimCAS": 200, "tq.stop.acquire.beforeCompareAndDelete": 2, "tq.stop.acquire.slowBeforeLoadRefs": 50,
     "tq.auto.recv": 20, "tq.schedules.overflowSized": 5, "tq.schedules.volume": 2,
     "trk.retain.blocked": 20, "trk.finalize.withWaiters": 15, "trk.transfer": 80,
